@@ -148,6 +148,11 @@ def evaluate(ct, kwargs, adapter=None):
                 env.update(old)
                 env["old"] = lambda x: x
                 env["__pre__"] = pre if pre is not None else {}
+                for lbl, e_ in ct.lets.items():        # lets that speak about the entry state only are available to raises conditions
+                    try:
+                        env[lbl] = spec_eval(e_, dict(env))
+                    except Exception:
+                        pass
                 try:
                     if not spec_eval(text, env):
                         out["violated"].append(f"raises:{allowed[0]} only-if")
@@ -162,8 +167,14 @@ def evaluate(ct, kwargs, adapter=None):
     env["now"] = args         # ... mutable arguments after the call are available as now['name']
     for exc, cond in ct.raises.items():
         if isinstance(cond, str) and cond != "True" and not cond.startswith("maybe"):
+            env2 = dict(env)
+            for lbl, e_ in ct.lets.items():
+                try:
+                    env2[lbl] = spec_eval(e_, dict(env2))
+                except Exception:
+                    pass
             try:
-                if spec_eval(cond, dict(env)):
+                if spec_eval(cond, env2):
                     out["violated"].append(f"raises:{exc} must-raise")
             except Exception:
                 pass
